@@ -88,6 +88,28 @@ def run(chk):
                 pass   # a kern token that already has the type's own category is kept as it is
             elif not (type(t).__name__ == 'SimpleToken' and t.encoding == s and t.category.name == own and t.export() == s):
                 chk.violation('verbatim', f'{h}: {s!r} -> {got}, expected SimpleToken({s!r}, {own})', {'header': h, 'cell': s})
+    # ---- one importer instance per header over the whole corpus (in corpus order and reversed): same answers as fresh ones
+    fresh = {}
+    for h, s_, ob_ in obs:
+        fresh[(h, s_)] = ob_
+    for h in headers:
+        for order in (cells, list(reversed(cells))):
+            imp = kp.createImporter(h)
+            for s_ in order:
+                chk.evaluations += 1
+                try:
+                    t = imp.import_token(s_)
+                    got = {'kept:' + t.category.name} if (kern[s_] is not None and describe(kern[s_]) == describe(t)) else set()
+                    if type(t).__name__ == 'SimpleToken' and t.encoding == s_:
+                        got.add(f'simple:{t.category.name}|{s_}')
+                    if not got:
+                        got.add('other:' + describe(t))
+                except Exception:
+                    got = {'err'}
+                if not (got & fresh[(h, s_)]):
+                    chk.violation('history', f'{h}: one importer instance gives {sorted(got)} for {s_!r} after earlier cells, a fresh importer {sorted(fresh[(h, s_)])}',
+                                  {'header': h, 'cell': s_})
+                    break
     if model:
         for (h, s, ob), m in zip(obs, model.batch(reqs)):
             if m.startswith('err:') and 'err' in ob:
